@@ -179,6 +179,13 @@ func init() {
 			}
 		}
 	}
+	libModels["big.Float.Prec"] = func(x *Exec, st *State, e *ast.CallExpr, a []Value, _ []types.Type) (Value, bool) {
+		t := x.uf("lib_bigFloat_Prec", SInt, asTerm(a[0]))
+		if !x.underBinder(t.S) {
+			x.declare("(assert (and (<= 0 "+t.S+") (<= "+t.S+" 4294967295)))", "ax_prec:"+t.S)
+		}
+		return t, true
+	}
 	libModels["fs.DirEntry.Name"] = func(x *Exec, st *State, e *ast.CallExpr, a []Value, _ []types.Type) (Value, bool) {
 		return x.uf("lib_DirEntry_Name", SStr, asTerm(a[0])), true
 	}
